@@ -9,7 +9,7 @@ import time
 from . import tlc
 from .tlc import MachineryError, VERIF
 
-EVID = os.path.join(VERIF, "evidence")
+EVID = os.environ.get("VERIF_EVIDENCE_DIR") or os.path.join(VERIF, "evidence")   # redirected only by seeded-change experiments
 KNOWN = os.path.join(VERIF, "known_findings.json")
 
 
